@@ -238,10 +238,17 @@ func HarnessC11Single() {
 // arbitrary error reply (so runs of -LOADING, -MASTERDOWN, -ERR ... of any length up to n occur): each
 // error reaches the client verbatim, once, and afterwards the connection still serves a normal request.
 // Whatever the proxy counts or remembers per backend connection meets the next error.
-func HarnessC11Seq(n int) {
+//   distinct = 1: every request gets an error of a DIFFERENT kind (the last two letters of the 8-letter error
+//   word change from one request to the next), so whatever the proxy keeps per kind of error grows with the run
+func HarnessC11Seq(n, distinct int) {
 	w, _ := verifWorld2(core.VerifDefaultOptions())
 	c := w.NewClient("10.0.0.1:5000")
 	e := errReply("err")
+	if distinct == 1 {
+		for i := 1; i < 9; i++ {
+			verifrt.Assume(verifrt.And(e[i] >= 'A', e[i] <= 'Z')) // one capitalised word
+		}
+	}
 	seen := map[*core.VerifConn]int{}
 	var want []byte
 	for i := 0; i <= n; i++ {
@@ -257,6 +264,10 @@ func HarnessC11Seq(n int) {
 		}
 		verifrt.Assert(target != nil && target.Opened(), "request_forwarded")
 		rsp := e
+		if distinct == 1 {
+			rsp = append([]byte{}, e...)
+			rsp[7], rsp[8] = byte('A'+i%26), byte('A'+(i/26)%26)
+		}
 		if i == n {
 			rsp = []byte("$1\r\nz\r\n")
 		}
@@ -271,7 +282,7 @@ func HarnessC11Seq(n int) {
 }
 
 func init() {
-	verifrt.Register("HarnessC11Seq", func(p []int64) { HarnessC11Seq(int(p[0])) })
+	verifrt.Register("HarnessC11Seq", func(p []int64) { HarnessC11Seq(int(p[0]), int(p[1])) })
 	verifrt.Register("HarnessC07", func(p []int64) { HarnessC07(int(p[0]), int(p[1]), int(p[2])) })
 	verifrt.Register("HarnessC11Single", func(p []int64) { HarnessC11Single() })
 }
